@@ -186,5 +186,5 @@ func featureClasses(c qcase.Case) []string {
 }
 
 func TestC01Generated(t *testing.T) {
-	evid.Prop(t, checkName, evid.R.N(8000, 20000), genCase, oracle)
+	evid.Prop(t, checkName, evid.R.N(8000, 80000), genCase, oracle)
 }
